@@ -393,7 +393,10 @@ func (x *Exec) describeBlocked() string {
 // ---------- virtual time ----------
 
 func (x *Exec) addTimer(d *Term, ch *ChanV, fn func()) *Timer {
-	t := &Timer{deadline: Add(x.now, d), ch: ch, fn: fn, active: true, id: len(x.timers)}
+	// like the Go runtime: now+d saturates instead of wrapping around
+	dl := Add(x.now, d)
+	dl = Ite(And(Sle(MkBV(64, 0), d), Slt(dl, x.now)), MkBV(64, 1<<63-1), dl)
+	t := &Timer{deadline: dl, ch: ch, fn: fn, active: true, id: len(x.timers)}
 	x.timers = append(x.timers, t)
 	return t
 }
